@@ -555,13 +555,17 @@ def _move_ok(prog, fn, m):
     for it in f["body"]:
         if "f" in it and mods.index(prog["funcs"][it["f"]]["mod"]) < mi:
             return False
+        for a in it.get("args", []):
+            if a.get("f") and mods.index(prog["funcs"][a["f"]]["mod"]) < mi:
+                return False
         if it["t"] == "var" and mods.index(prog["vars"][it["name"]]["mod"]) < mi:
             return False
         if it["t"] == "var" and it.get("form", "direct") == "direct" and prog["vars"][it["name"]]["mod"] == f["mod"]:
             return False  # a direct read of a variable of the old module would dangle
     for gname, g in prog["funcs"].items():
         for it in g["body"]:
-            if it.get("f") == fn and mods.index(g["mod"]) > mi:
+            refs = [it.get("f")] + [a.get("f") for a in it.get("args", [])]
+            if fn in refs and mods.index(g["mod"]) > mi:
                 return False
     return True
 
